@@ -311,20 +311,28 @@ def r6_r7_splinecv(ctx):
         ctx.check("R6", "%s|best-is-argmax|%s" % (qn, tag), ok, "the best candidate is argmax of the mean scores (higher is better for scikit-learn scorers)", bad="the candidate with the LOWEST score is selected", fn=qn)
         sets = {e.data[1]: e.data[2] for e in p.events if e.kind == "setattr" and e.data[0] == Q.SELF}
         sp = sets.get("spline_")
+        # the final model: Spline(**parameter_sets[best]) either stored and then fitted, or fitted in a chained call
+        model = sp
+        if sp is not None and sp[0] == "call" and sp[1][0] == "attr" and sp[1][2] == "fit":
+            model = sp[1][1]
         ok = None
-        if sp is not None and sp[0] == "call" and callee(sp) == "verde.spline.Spline" and psets is not None and sel:
-            arg = sp[3][0][1] if sp[3] and sp[3][0][0] is None else None
+        if model is not None and model[0] == "call" and callee(model) == "verde.spline.Spline" and psets is not None and sel:
+            arg = model[3][0][1] if model[3] and model[3][0][0] is None else None
             best = arg[2] if arg is not None and arg[0] == "sub" and arg[1] == psets else None
             good_best = best is not None and (best == sel[0] or (best[0] == "call" and best[1] == ("attr", sel[0], "compute")))
             ok = True if good_best else (False if arg is not None and arg[0] == "sub" and is_const(arg[2]) else None)
         ctx.check("R6", "%s|refit-uses-best-parameters|%s" % (qn, tag), ok, "spline_ = Spline(**parameter_sets[best])", bad="spline_ is built from a fixed parameter set, not the best one", fn=qn)
-        fits = [e.data[0] for e in p.events if e.kind == "call" and e.data[0][1][0] == "attr" and e.data[0][1][2] == "fit" and sp is not None and e.data[0][1][1] == sp]
+        fits = [e.data[0] for e in p.events if e.kind == "call" and e.data[0][1][0] == "attr" and e.data[0][1][2] == "fit" and model is not None and e.data[0][1][1] == model]
         ok = None
         if len(fits) == 1:
             f = fits[0]
-            w = kw(f, "weights") if kw(f, "weights") is not None else (f[2][2] if len(f[2]) > 2 else None)
-            ok = True if f[2][:2] == (("param", "coordinates"), ("param", "data")) and w == ("param", "weights") else (False if w is None or w == NONE else None)
-        ctx.check("R6", "%s|refit-on-all-data-with-weights|%s" % (qn, tag), ok, "the best spline is refitted on (coordinates, data, weights=weights)", bad="the final refit drops the weights", fn=qn)
+            w = Q.arg(ctx, f, "weights", ["coordinates", "data", "weights"])
+            co_, da_ = Q.arg(ctx, f, "coordinates", ["coordinates", "data", "weights"]), Q.arg(ctx, f, "data", ["coordinates", "data", "weights"])
+            ok = True if (co_, da_) == (("param", "coordinates"), ("param", "data")) and w == ("param", "weights") else (False if w is None or w == NONE else None)
+        elif not fits and model is not None:
+            ok = False
+        ctx.check("R6", "%s|refit-on-all-data-with-weights|%s" % (qn, tag), ok, "the best spline is refitted on (coordinates, data, weights=weights)",
+                  bad="the final refit %s" % ("drops the weights" if fits else "is missing"), fn=qn)
         scs = sets.get("scores_")
         ctx.check("R6", "%s|scores_-stored|%s" % (qn, tag), True if scs is not None else False, "scores_ is stored", bad="scores_ is not stored", fn=qn)
         # scores[k] is the mean of candidate k's CV scores
